@@ -1,7 +1,6 @@
 package main
 
 import (
-	"bytes"
 	"crypto/sha256"
 	"fmt"
 	"runtime"
@@ -124,9 +123,4 @@ func suiteC17(c *ctx) {
 		}
 	}
 	c.rep.Hist["rounds"] = rounds
-	var all bytes.Buffer
-	for _, s := range solo {
-		all.WriteString(s)
-	}
-	c.rep.Digest("C17-all", all.Bytes())
 }
